@@ -221,13 +221,21 @@ Fixpoint env_ok (st : state) (sched : list step) : Prop :=
   | x :: r => step_ok st x /\ env_ok (do_step st x) r
   end.
 
+Fixpoint nseq (k : nat) (from : N) : list N :=
+  match k with O => [] | S k' => from :: nseq k' (N.succ from) end.
+
 (* ---------- file backend: Lock ; os.Stat / WriteFile "0" ; ReadFile ; WriteFile ; Unlock ---------- *)
 (* All callers are goroutines of ONE process using ONE Service: its runCounterMu is the lock.
-   Two processes sharing a working directory are not covered (nor is it by the code). *)
+   Two processes sharing a working directory are not covered (nor is it by the code).
+   ioutil.WriteFile is open-with-O_TRUNC (or create) THEN write: two steps, the file is empty in
+   between.  The process may die at any point ([FCrash]): every call in flight is gone, the mutex
+   with it, the file stays as it is; a later process (a restarted core) works on what it finds. *)
 Inductive fcstate :=
 | FIdle
-| FChecked                 (* holds the lock; the file exists (created with "0" if it did not) *)
+| FCreating                (* holds the lock; created the file, empty, "0" not yet written *)
+| FChecked                 (* holds the lock; the file exists *)
 | FHasRead (n : N)         (* holds the lock and the incremented value *)
+| FTrunc (n : N)           (* holds the lock; has truncated the file, n not yet written *)
 | FDone (r : option N).
 
 Record fstate := mkF { f_file : option str; f_lock : option N;
@@ -243,9 +251,12 @@ Definition fstep (st : fstate) (i : N) : fstate :=
   | FIdle =>
       match f_lock st with
       | Some _ => st
-      | None => mkF (match f_file st with None => Some [48] | Some b => Some b end) (Some i)
-                    ((i, FChecked) :: cs) (f_rets st)
+      | None => match f_file st with
+                | None => mkF (Some []) (Some i) ((i, FCreating) :: cs) (f_rets st)
+                | Some b => mkF (Some b) (Some i) ((i, FChecked) :: cs) (f_rets st)
+                end
       end
+  | FCreating => mkF (Some [48]) (f_lock st) ((i, FChecked) :: cs) (f_rets st)
   | FChecked =>
       match f_file st with
       | None => mkF None None ((i, FDone None) :: cs) (f_rets st)
@@ -257,18 +268,59 @@ Definition fstep (st : fstate) (i : N) : fstate :=
                               end
                   end
       end
-  | FHasRead n => mkF (Some (fmt_u n)) None ((i, FDone (Some n)) :: cs) ((i, n) :: f_rets st)
+  | FHasRead n => mkF (Some []) (f_lock st) ((i, FTrunc n) :: cs) (f_rets st)
+  | FTrunc n => mkF (Some (fmt_u n)) None ((i, FDone (Some n)) :: cs) ((i, n) :: f_rets st)
   | FDone _ => st
   end.
 
+(* scheduler choices: a step of caller i, or the death of the process.  [FCrash None]: the file
+   stays as the dying calls left it (old value, EMPTY between truncate and write, new value);
+   [FCrash (Some b)]: afterwards the file holds b, whatever b is (corruption at system level, an
+   operator, a torn write of another kind) *)
+Inductive fev := FS (i : N) | FCrash (c : option str).
+
+Definition fkill (c : fcstate) : fcstate :=
+  match c with FIdle => FIdle | FDone r => FDone r | _ => FDone None end.
+
+Definition fdo (st : fstate) (e : fev) : fstate :=
+  match e with
+  | FS i => fstep st i
+  | FCrash c =>
+      mkF (match c with None => f_file st | Some b => Some b end) None
+          (map (fun jc => (fst jc, fkill (snd jc))) (f_callers st)) (f_rets st)
+  end.
+
 Definition finit (f : option str) : fstate := mkF f None [] [].
-Definition frun (st : fstate) (sched : list N) : fstate := fold_left fstep sched st.
+Definition frun (st : fstate) (sched : list fev) : fstate := fold_left fdo sched st.
 (* numbers returned, in the order of the writes *)
 Definition fhanded (st : fstate) : list N := map snd (rev (f_rets st)).
-(* every call runs to completion before the next one starts *)
-Definition fserial (ids : list N) : list N := flat_map (fun i => [i; i; i]) ids.
+(* every call runs to completion before the next one starts (5 steps at most) *)
+Definition fserial (ids : list N) : list fev := flat_map (fun i => [FS i; FS i; FS i; FS i; FS i]) ids.
 Definition fcur (f : option str) : N :=
   match f with Some b => match parse_u32 b with Some v => v | None => 0 end | None => 0 end.
+(* the value a start would read: an absent file is created with "0"; [None]: the start fails *)
+Definition fval (f : option str) : option N :=
+  match f with None => Some 0 | Some b => parse_u32 b end.
+
+(* the hypothesis about a file content that appears from outside: it does not read as a valid
+   number below what was handed out (that is a lowered counter, it defeats any protocol).
+   Nothing is assumed about contents that do not read as a number: the start must fail on them. *)
+Definition fev_ok (v0 : N) (st : fstate) (e : fev) : Prop :=
+  match e with
+  | FCrash (Some b) =>
+      match parse_u32 b with
+      | None => True
+      | Some m => v0 <= m /\ Forall (fun r => r <= m) (map snd (f_rets st))
+      end
+  | _ => True
+  end.
+Fixpoint fenv_ok (v0 : N) (st : fstate) (sched : list fev) : Prop :=
+  match sched with
+  | [] => True
+  | e :: r => fev_ok v0 st e /\ fenv_ok v0 (fdo st e) r
+  end.
+Definition no_crash (sched : list fev) : Prop :=
+  Forall (fun e => match e with FS _ => True | FCrash _ => False end) sched.
 
 (* the same read-modify-write WITHOUT the mutex (the code before the repair): used only to show
    that the lock is what makes the theorem true *)
@@ -290,9 +342,66 @@ Definition fstep_nolock (st : fstate) (i : N) : fstate :=
                   end
       end
   | FHasRead n => mkF (Some (fmt_u n)) None ((i, FDone (Some n)) :: cs) ((i, n) :: f_rets st)
-  | FDone _ => st
+  | _ => st
   end.
 Definition frun_nolock (st : fstate) (sched : list N) : fstate := fold_left fstep_nolock sched st.
+
+(* a reader that forgives: blanks and newlines are dropped and an empty file reads as "0" (NOT
+   what the code does): used only to show that failing on a torn file is what makes the theorem
+   true across a crash *)
+Definition lenient (b : str) : str :=
+  match filter (fun c => negb ((c =? 32) || (c =? 10) || (c =? 13) || (c =? 9))) b with
+  | [] => [48]
+  | t => t
+  end.
+Definition fstep_lenient (st : fstate) (i : N) : fstate :=
+  match fget (f_callers st) i, f_file st with
+  | FChecked, Some b => fstep (mkF (Some (lenient b)) (f_lock st) (f_callers st) (f_rets st)) i
+  | _, _ => fstep st i
+  end.
+Definition fdo_lenient (st : fstate) (e : fev) : fstate :=
+  match e with FS i => fstep_lenient st i | FCrash _ => fdo st e end.
+Definition frun_lenient (st : fstate) (sched : list fev) : fstate := fold_left fdo_lenient sched st.
+
+(* ----- lives of the process, as the harness drives them: k calls one after the other, then the
+   process ends: a plain restart, a further call that dies inside its write-back (after the
+   truncate), one that dies while creating the file, or a restart that finds another content *)
+Inductive fend := ERestart | EDieInWrite | EDieInCreate | ECorrupt (b : str).
+
+Definition fend_sched (st : fstate) (c : N) (e : fend) : list fev :=
+  match e with
+  | ERestart => [FCrash None]
+  | EDieInWrite =>          (* lock (+create, write "0"), read, truncate — then death *)
+      match f_file st with
+      | None => [FS c; FS c; FS c; FS c; FCrash None]
+      | Some _ => [FS c; FS c; FS c; FCrash None]
+      end
+  | EDieInCreate =>
+      match f_file st with
+      | None => [FS c; FCrash None]
+      | Some _ => [FCrash None]
+      end
+  | ECorrupt b => [FCrash (Some b)]
+  end.
+
+Definition fres (st : fstate) (i : N) : option N :=
+  match fget (f_callers st) i with FDone r => r | _ => None end.
+
+(* returns the final state, the whole schedule, and what each call of each life returned *)
+Fixpoint flives (st : fstate) (c : N) (lives : list (N * fend))
+  : fstate * list fev * list (list (option N)) :=
+  match lives with
+  | [] => (st, [], [])
+  | (k, e) :: r =>
+      let ids := nseq (N.to_nat k) c in
+      let s1 := fserial ids in
+      let st1 := frun st s1 in
+      let res := map (fres st1) ids in
+      let c' := c + k in
+      let s2 := fend_sched st1 c' e in
+      let '(stf, sr, rr) := flives (frun st1 s2) (N.succ c') r in
+      (stf, s1 ++ s2 ++ sr, res :: rr)
+  end.
 
 (* ---------- START_ACTIVITY in the environment state machine (before_event only) ---------- *)
 (* environment states as numbers: 0 STANDBY 1 DEPLOYED 2 CONFIGURED 3 RUNNING 4 DONE 5 ERROR *)
@@ -316,9 +425,6 @@ Definition start_activity (e : envst) (neg_ok : bool) (rn : option N) (rest_ok :
 (* does START_ACTIVITY ask for a run number at all? *)
 Definition asks_number (e : envst) (neg_ok : bool) : bool :=
   (e_state e =? E_CONFIGURED) && neg_ok.
-
-Fixpoint nseq (k : nat) (from : N) : list N :=
-  match k with O => [] | S k' => from :: nseq k' (N.succ from) end.
 
 (* ---------- histories: sequences of requests on several environments sharing the counter ---------- *)
 (* What environment.go does with currentRunNumber: assigned in before_event of START_ACTIVITY
@@ -480,6 +586,10 @@ Inductive c07_case :=
    counter, store initially absent with raft index clock0), [nother] other callers;
    observed: request log, per operation (error?, state, current run number, run number shown to
    the hooks of weight >= 0 of before_START_ACTIVITY), results of the other callers, final key *)
+(* file backend across lives of the process (see [flives]); observed: what every call of every
+   life returned, the file at the end *)
+| CFileLives (file0 : option str) (lives : list (N * fend))
+             (ores : list (list (option N))) (ofile : option str)
 | CHist (clock0 : N) (states : list N) (nother : N) (ops : list hop)
         (olog : list lentry) (ores : list hres) (oothers : list cres) (okv : option (str * N)).
 
@@ -487,9 +597,6 @@ Definition model_sched (clock0 k : N) (sched : list step) :=
   let st := run (init (mkStore None clock0)) sched in
   (rev (s_log st), map (fun i => cres_of (get (s_callers st) i)) (nseq (N.to_nat k) 0),
    st_kv (s_store st)).
-
-Definition fres (st : fstate) (i : N) : option N :=
-  match fget (f_callers st) i with FDone r => r | _ => None end.
 
 Definition hres_eqb (a b : hres) : bool :=
   Bool.eqb (hr_err a) (hr_err b) && (hr_state a =? hr_state b) && (hr_rn a =? hr_rn b) &&
@@ -523,6 +630,9 @@ Definition corr07 (c : c07_case) : bool :=
       (* under the mutex every schedule of g*k calls on "0" ends with no failed call and the
          counter at g*k (C07_file_backend_dense) *)
       (errs =? 0) && (fcur ofile =? g * k)
+  | CFileLives file0 lives ores ofile =>
+      let '(st, _, res) := flives (finit file0) 0 lives in
+      list_eqb (list_eqb (option_eqb N.eqb)) res ores && option_eqb str_eqb (f_file st) ofile
   | CHist clock0 states nother ops olog ores oothers okv =>
       let h0 := hinit (mkStore None clock0) states in
       let st := hs_ctr (hrun_st h0 0 ops) in
@@ -538,7 +648,8 @@ Definition corr07 (c : c07_case) : bool :=
    answered CAS; 4 START_ACTIVITY went on although no number was obtained (or left a run number /
    another state behind); 5 the uint32 wrap: 4294967295 is followed by 0 (repaired: the call must
    fail); 6 duplicate from the file backend under concurrent calls (repaired: mutex); 7 file backend, sequential calls: not strictly
-   increasing; 8 the environment's run number is not the number obtained from the counter *)
+   increasing; 11 file backend: a number not larger than an earlier one after the process died or
+   restarted; 8 the environment's run number is not the number obtained from the counter *)
 
 Definition val_of (b : option str) : option N :=
   match b with None => Some 0 | Some s => parse_u32 s end.
@@ -683,6 +794,34 @@ Definition mon_hist (states : list N) (ops : list hop) (olog : list lentry) (ore
   if negb (c =? 0) then c else
   if negb (envbad_log olog) && negb (incr_list 0 (hnums ores)) then 10 else 0.
 
+(* ----- file backend across lives.  11: after the process died or was restarted, a call returned
+   a number that is not larger than one returned before (the sequence was restarted, e.g. from a
+   file torn by a dying write-back that was read as 0).  Walks the returned numbers life by
+   life; [hi] = the largest value seen so far (the initial file's value, every number
+   returned), [after] = a life has ended before.  A corruption that reads as a plain valid
+   number below [hi] is a lowered counter: nothing is required afterwards. *)
+Fixpoint mon_life (hi : N) (after : bool) (l : list (option N)) : N * N :=   (* code, new hi *)
+  match l with
+  | [] => (0, hi)
+  | None :: r => mon_life hi after r
+  | Some n :: r => if hi <? n then mon_life n after r
+                   else (if (n =? 0) && (hi =? max_u32) then 5 else if after then 11 else 7, hi)
+  end.
+Fixpoint mon_lives (hi : N) (after : bool) (lives : list (N * fend)) (ores : list (list (option N))) : N :=
+  match lives, ores with
+  | (_, e) :: r, l :: ls =>
+      let '(c, hi') := mon_life hi after l in
+      if negb (c =? 0) then c else
+      match e with
+      | ECorrupt b => match parse_u32 b with
+                      | Some m => if m <? hi' then 0 else mon_lives m true r ls
+                      | None => mon_lives hi' true r ls
+                      end
+      | _ => mon_lives hi' true r ls
+      end
+  | _, _ => 0
+  end.
+
 Definition mon07 (c : c07_case) : N :=
   match c with
   | CSched _ _ _ olog ores _ => mon_sched olog ores
@@ -699,6 +838,7 @@ Definition mon07 (c : c07_case) : N :=
       if incr_from (fcur file0) ores then 0
       else if existsb (fun r => match r with Some 0 => true | _ => false end) ores then 5 else 7
   | CFileStress _ _ dups _ _ => if dups =? 0 then 0 else 6
+  | CFileLives file0 lives ores _ => mon_lives (fcur file0) false lives ores
   | CHist _ states _ ops olog ores oothers _ => mon_hist states ops olog ores oothers
   end.
 
@@ -722,6 +862,14 @@ Definition tag07 (c : c07_case) : N :=
            + bit (existsb (fun r => match r with None => true | _ => false end) ores) 2
            + bit ((fcur file0 =? max_u32) || (fcur file0 <? max_u32) && (max_u32 <? fcur file0 + Nlen ores)) 4 (* a call found the counter exhausted *)
   | CFileStress _ _ dups _ _ => 3000 + bit (negb (dups =? 0)) 1
+  | CFileLives file0 lives ores ofile =>
+      5000 + bit (existsb (fun le => match snd le with EDieInWrite => true | _ => false end) lives) 1
+           + bit (existsb (fun le => match snd le with ECorrupt _ => true | _ => false end) lives) 2
+           + bit (existsb (fun le => match snd le with EDieInCreate => true | _ => false end) lives) 4
+           + bit (match fval ofile with None => true | _ => false end) 8       (* ends unreadable *)
+           + bit (2 <=? Nlen (filter (fun l => existsb (fun r => match r with Some _ => true | None => false end) l) ores)) 16
+                                                                               (* numbers returned in at least two lives *)
+           + bit (existsb (fun l => existsb (fun r => match r with None => true | _ => false end) l) ores) 32
   | CHist _ states _ ops olog ores _ _ =>
       4000 + bit (2 <=? Nlen (hnums ores)) 1                        (* at least two attempts went on *)
            + bit (existsb (fun x => match hr_seen x with Some _ => hr_err x | None => false end) ores) 2
